@@ -333,6 +333,27 @@ func cmapCase(o *suiteOut, line string) {
 			c.blocks = append(c.blocks, blk)
 		}
 	}
+	if strings.HasPrefix(fault, "huge-") {
+		// more than 65,536 entries in one table (700 blocks of 100): a legal file, well within the budget
+		kind := strings.TrimPrefix(fault, "huge-")
+		c.blocks = []cmBlock{{kind: "codespacerange", entries: []cmEntry{{a: []byte{0, 0, 0}, b: []byte{0xff, 0xff, 0xff}}}}}
+		code := 0
+		for b := 0; b < 700; b++ {
+			blk := cmBlock{kind: kind}
+			for j := 0; j < 100; j++ {
+				a := []byte{byte(code >> 16), byte(code >> 8), byte(code)}
+				e := cmEntry{a: a, b: a, dst: fmt.Sprint(code), dobj: postscript.Integer(code)}
+				if strings.HasPrefix(kind, "bf") {
+					d := []byte{byte(code >> 8), byte(code)}
+					e.dst, e.dobj = hexStr(d), postscript.String(d)
+				}
+				blk.entries = append(blk.entries, e)
+				code += 3
+			}
+			c.blocks = append(c.blocks, blk)
+		}
+		fault = "big"
+	}
 	applicable := true
 	if fault == "unequal" || fault == "reversed" {
 		applicable = len(c.blocks) > 0 && len(c.blocks[0].entries) > 0 // first block is a code space range
@@ -476,6 +497,9 @@ func suiteCMap(o *suiteOut, r *rng, tier string, n int) {
 		nr = n
 	}
 	cmapCase(o, fmt.Sprintf("cmap %d big", r.next()%1000000007))
+	for _, kind := range []string{"cidchar", "cidrange", "bfchar", "bfrange", "notdefchar", "notdefrange"} {
+		cmapCase(o, fmt.Sprintf("cmap %d huge-%s", r.next()%1000000007, kind))
+	}
 	for i := 0; i < nr; i++ {
 		seed := r.next() % 1000000007
 		cmapCase(o, fmt.Sprintf("cmap %d none", seed))
